@@ -43,7 +43,7 @@ ANCHORS = {'Driver.C09 k9_* / k9v_* reference ops (NmVerif.KindRefs: NumPy seman
            'NmVerif.Kinds.BVec': 'utl::static_vector (utl/static_vector.hpp)', 'NmVerif.Kinds.Clipped': 'clipped_integer_t (def.hpp:55-132)'}
 MANIFEST = dict(
     text='Translation validation: every operation is instantiated under the supported combinations of argument container kinds (constant tuple, clipped, std::array, raw array, static_vector, vector, run-time tuple, fixed/hybrid 1-d ndarray, utl::array/vector, boost::array/static_vector; 35 array kinds incl. the 15 ndarray_t shape-x-buffer kinds in both layouts), in STL and NMTOOLS_DISABLE_STL builds with g++ and clang++, including constexpr evaluation, on a common request list; the normalised (has_value, shape, elements) of all of them is compared with ONE reference answer (Lean reference function written from the NumPy semantics + NumPy itself). Which combinations compile is pinned; a pinned combination that stops compiling is reported. Proof-level Lean lemmas for the container layer: a bounded vector refines a list for every operation sequence without capacity event, a clipped integer is the identity inside its range and clamps outside, and the bounded / clipped result containers chosen by the metafunctions of compute_strides / shape_transpose / broadcast_shape never overflow or clamp.',
-    note='The universally quantified part over configurations is finite and enumerated in the thorough tier (every pinned-supported signature at least once); over input values it is sampled (small extents). That the constant-index branch computes the same function (it calls the same constexpr function on to_value_v) is code structure validated by the matrix, not a theorem. Seven genuine kind-dependences of the unchanged tree are listed as known findings (two earlier ones, the column-major clipped shape and the clipped extent 1 in broadcast_shape, were closed by fix commits 930c763 / 90a319c and are kept as regression requests). Not covered: maybe-wrapped argument kinds, boost small_vector, the index-map functions of C03/C04 (only their shape functions), constexpr evaluation of views.',
+    note='The universally quantified part over configurations is finite and enumerated in the thorough tier (every pinned-supported signature at least once); over input values it is sampled (small extents). That the constant-index branch computes the same function (it calls the same constexpr function on to_value_v) is code structure validated by the matrix, not a theorem. Eight genuine kind-dependences of the unchanged tree are listed as known findings (two earlier ones, the column-major clipped shape and the clipped extent 1 in broadcast_shape, were closed by fix commits 930c763 / 90a319c and are kept as regression requests). Not covered: maybe-wrapped argument kinds, boost small_vector, the index-map functions of C03/C04 (only their shape functions), constexpr evaluation of views.',
     technique='generated kind-matrix differential run against one Lean/NumPy reference + Lean 4 container refinement lemmas')
 ASSUMPTIONS = ['a kind signature that does not compile in the unchanged tree is an unsupported combination, not a violation (pinned in lib/kinds_supported_c09.json)',
                'a failure type returned for compile-time-constant arguments (meta::is_fail_v), or a compile error of a case with a constant argument, counts as the refusal `nothing`',
@@ -716,7 +716,9 @@ REFS['v_concatenate'] = Ref(lambda v: _np_arr(lambda: np.concatenate((_arr(v[0],
                             lambda v: 'k9v_concatenate x=%s y=%s axis=%s' % (fmt(v[0]), fmt(v[1]), 'None' if v[2] is None else str(v[2])),
                             _gen_vcat, fixed=[[[2, 3], [1, 3], 0], [[2, 3], [2], None], [[2, 3], [2, 1], 1],
                                               # refused: an extent differs off the joining axis, axis out of range
-                                              [[2, 3], [2, 2], 0], [[2, 3], [2, 3], 2]])
+                                              [[2, 3], [2, 2], 0], [[2, 3], [2, 3], 2],
+                                              # (an extent along the axis above the extent of the last axis: known finding)
+                                              [[3, 2], [2, 2], 0], [[3, 3, 2], [3, 3, 2], 0]])
 
 
 def _gen_vwhere(rng):
@@ -962,7 +964,22 @@ def kf_repeat_constant_axis_invalid(c):
     return isinstance(reps, list) and len(reps) != shape[ax]
 
 
+def kf_concatenate_clipped_operand(c):
+    """view::concatenate along an axis where an operand with a clipped shape has an extent above the bound of its last axis"""
+    r = parse_req(c.req)
+    if r['op'] != 'v_concatenate' or r['args']['axis'] is None:
+        return False
+    for an in ('x', 'y'):
+        s_ = r['args'][an]
+        if array_shape_class(r['argkind'][an]) == 'clipped':
+            ax = r['args']['axis']
+            if -len(s_) <= ax < len(s_) and s_[ax] > s_[-1]:
+                return True
+    return False
+
+
 KNOWN_PREDICATES = {
+    'concatenate_clipped_operand': kf_concatenate_clipped_operand,
     'repeat_constant_axis_invalid': kf_repeat_constant_axis_invalid,
     'take_clipped_indices': kf_take_clipped_indices,
     'repeat_clipped_repeats': kf_repeat_clipped_repeats,
@@ -1017,6 +1034,7 @@ QUICK_VIEW_EXTRA = {
     'v_broadcast_arrays': [[[3], [2, 1]]],
     'v_where': [[[3], [2, 1], [2, 3]]],
     'v_sum_k': [[[2, 3], None, False]],
+    'v_concatenate': [[[3, 2], [2, 2], 0]],
 }
 
 
